@@ -1577,6 +1577,13 @@ def _normalize_subspace_eigenvectors(
         else:
             right = left = subspace
 
+        # Projections onto legacy sparse matrices are legacy sparse matrices, whose
+        # sums with arrays are `np.matrix`, for which `*` is a matrix product.
+        if isinstance(right, sparse.spmatrix):
+            right = sparse.csr_array(right)
+        if isinstance(left, sparse.spmatrix):
+            left = sparse.csr_array(left)
+
         if right.shape[0] != left.shape[0]:
             raise ValueError(
                 "Left and right subspace vectors must have the same ambient dimension."
